@@ -1,6 +1,8 @@
 """C07 -- liquidity/amount math: no over-spend, maximal, one-sided out of range, exact."""
 from __future__ import annotations
 
+from ..norm import srepr as srepr_
+
 import ast
 
 from ..model import AnalysisError
@@ -184,10 +186,12 @@ def sqrt_siblings(model, res):
             seen.append((f, a))
     if len(seen) < 4:
         raise AnalysisError(f"C07: only {len(seen)} sqrt-price derivations found in UniLpMarket (expected >= 4)")
-    ref = [a for f, a in seen if f.name == "_add_liquidity_by_tick"]
-    if len(ref) != 1:
-        raise AnalysisError("C07: _add_liquidity_by_tick no longer derives the sqrt price from the status price in one way")
-    ref = ref[0]
+    # the sites must agree with one another: the reference is the derivation most of them use (whichever function the
+    # add path keeps its derivation in)
+    from collections import Counter
+    cnt = Counter(srepr_(a) for _f, a in seen)
+    top = sorted(cnt.items(), key=lambda kv: (-kv[1], kv[0]))[0][0]
+    ref = next(a for _f, a in seen if srepr_(a) == top)
     for f, a in seen:
         ok = a == ref
         res.ob("R-SIB", f"{f.qualname}: sqrt price derived from the same (price, decimals, orientation) as the add path", f.loc(), ok=ok)
